@@ -188,7 +188,7 @@ func Gen(t *rapid.T) Doc {
 	rootName := "root"
 	if x.chance("doctype", 3) {
 		x.feats["doctype"]++
-		switch x.n("doctypekind", 3) {
+		switch x.n("doctypekind", 4) {
 		case 0:
 			sb.WriteString("<!DOCTYPE root>")
 		case 1:
@@ -197,6 +197,12 @@ func Gen(t *rapid.T) Doc {
 			x.ents["e1"] = "ent value"
 			x.feats["internal-subset"]++
 			sb.WriteString("<!DOCTYPE root [\n <!ENTITY e1 \"ent value\">\n <!ELEMENT root ANY> ]>")
+		case 4:
+			// literals with whitespace runs: they are part of the entity value / default value
+			x.ents["e1"] = "ent   value  with runs"
+			x.feats["internal-subset"]++
+			x.feats["doctype-literal-with-whitespace-runs"]++
+			sb.WriteString("<!DOCTYPE root [ <!ENTITY e1 \"ent   value  with runs\"> <!ATTLIST root fmt CDATA '%d   %s'> ]>")
 		default:
 			sb.WriteString("<!DOCTYPE   root   PUBLIC \"-//X//Y\"   \"u\">")
 		}
